@@ -587,7 +587,7 @@ impl<B: FA, H: HA<B> + Sync> SubCheck for Elems<B, H> {
         let base: Vec<B> = c.els.iter().map(realise::<B>).collect();
         let residues: Vec<u128> = base.iter().map(model_residue::<B>).collect();
         let n = base.len();
-        obs.label(format!("len={n}"));
+        obs.label(if n <= 40 { format!("len={n}") } else if n <= 2100 && [63usize, 64, 65, 127, 128, 129, 255, 256, 257, 511, 512, 513, 1023, 1024, 1025, 1535, 1536, 2047, 2048, 2049].contains(&n) { format!("len={n}") } else { "len=41..2100".to_string() });
         let noncanon = base.iter().any(|e| e.image() >= B::FP.p);
         if noncanon {
             obs.label("has-non-canonical-internal-value");
